@@ -853,4 +853,51 @@ example : ∀ b ∈ OmplModel.Generated.RwSets.sO2StateSpace, Alias.modesAgree b
   apply alias_safe_sound
   revert b; decide
 
+/-! ## the property stated about the AS-RUN function (`interpolateTree`, what `drv_spaceinterp` executes against libompl)
+
+Round 10, item D: sections 1–9 are stated about `interpolate` (the clause before the F61 / F159 repairs) and reach the function the
+driver runs only through `interp_tree_eq`, whose in-bounds hypotheses were ASSUMED for the intermediate state of a continued
+interpolation.  Here they are ESTABLISHED (`interp_wellTyped`, `interp_inbounds` give well-typedness and bounds of the point at s), so
+end points, bounds and re-parameterisation are theorems of `interpolateTree` itself. -/
+
+theorem reparamOk_noSO3Klein (sp : Space ℝ) (h : reparamOk sp = true) : noSO3Klein sp = true := by
+  induction sp with
+  | ccons w hd tl ih1 ih2 =>
+    simp only [reparamOk, Bool.and_eq_true] at h
+    simp [noSO3Klein, ih1 h.1, ih2 h.2]
+  | wrap s ih => simp only [reparamOk] at h; simp [noSO3Klein, ih h]
+  | so3 => simp [reparamOk] at h
+  | klein => simp [reparamOk] at h
+  | _ => simp [noSO3Klein]
+
+theorem tree_interp_endpoints_inbounds (sp : Space ℝ) (a b : St ℝ) (t : ℝ) (hsp : noSO3Klein sp = true)
+    (hwa : wellTyped sp a = true) (hwb : wellTyped sp b = true)
+    (hba : inBounds sp a = true) (hbb : inBounds sp b = true) (ht0 : 0 ≤ t) (ht1 : t ≤ 1) :
+    interpolateTree sp a b 0 = a ∧ interpolateTree sp a b 1 = b ∧ inBounds sp (interpolateTree sp a b t) = true := by
+  refine ⟨?_, ?_, ?_⟩
+  · rw [interp_tree_eq sp a b 0 hwa hwb hba hbb (le_refl 0) zero_le_one]
+    exact interpolate_zero sp a b hsp hwa hwb hba
+  · rw [interp_tree_eq sp a b 1 hwa hwb hba hbb zero_le_one (le_refl 1)]
+    exact interp_one sp a b hsp hwa hwb hbb
+  · rw [interp_tree_eq sp a b t hwa hwb hba hbb ht0 ht1]
+    exact interp_inbounds sp a b t hsp hwa hwb hba hbb ht0 ht1
+
+theorem tree_interp_reparam (sp : Space ℝ) (a b : St ℝ) (s u : ℝ) (hsp : reparamOk sp = true)
+    (hwa : wellTyped sp a = true) (hwb : wellTyped sp b = true)
+    (hba : inBounds sp a = true) (hbb : inBounds sp b = true)
+    (hs0 : 0 ≤ s) (hs1 : s ≤ 1) (hu0 : 0 ≤ u) (hu1 : u ≤ 1) :
+    interpolateTree sp (interpolateTree sp a b s) b u = interpolateTree sp a b (s + (1 - s) * u) := by
+  have hk := reparamOk_noSO3Klein sp hsp
+  have h0 : 0 ≤ s + (1 - s) * u := by nlinarith
+  have h1 : s + (1 - s) * u ≤ 1 := by nlinarith
+  rw [interp_tree_eq sp a b s hwa hwb hba hbb hs0 hs1,
+    interp_tree_eq sp a b _ hwa hwb hba hbb h0 h1]
+  have hwm : wellTyped sp (interpolate sp a b s) = true := interp_wellTyped _ _ sp a b s hwa hwb
+  have hbm : inBounds sp (interpolate sp a b s) = true := interp_inbounds sp a b s hk hwa hwb hba hbb hs0 hs1
+  rw [interp_tree_eq sp _ b u hwm hwb hbm hbb hu0 hu1]
+  exact interp_reparam sp a b s u hsp hwa hwb hba hbb hs0 hs1 hu0 hu1
+
+example : interpolateTree se2 (interpolateTree se2 se2A se2B (1 / 3)) se2B (1 / 2) = interpolateTree se2 se2A se2B (1 / 3 + (1 - 1 / 3) * (1 / 2)) :=
+  tree_interp_reparam _ _ _ _ _ se2_ok.2.1 se2A_wt se2B_wt se2A_inB se2B_inB (by norm_num) (by norm_num) (by norm_num) (by norm_num)
+
 end OmplModel.Props.C07
